@@ -141,7 +141,9 @@ Record NPost (k : key) (creator : option key) (cdet : bool) (s s1 : st) : Prop :
   np_kl : forall x, In x (KL (nodes s1)) <-> In x (KL (nodes s)) \/ x = k;
   np_det : forall x, x <> k -> is_detached x s = true -> is_detached x s1 = true;
   np_cre : forall x n1, x <> k -> findn x (nodes s1) = Some n1 ->
-           exists n0, findn x (nodes s) = Some n0 /\ (ncre n1 = None \/ ncre n1 = ncre n0) }.
+           exists n0, findn x (nodes s) = Some n0 /\ (ncre n1 = None \/ ncre n1 = ncre n0);
+  np_att : forall x n0, x <> k -> findn x (nodes s) = Some n0 -> ndet n0 = false ->
+           findn x (nodes s1) = Some n0 }.
 
 Lemma create_nodes_spec strict k creator s :
   Inv hh s -> fst k <> KRoot -> new_node_ok (nodes s) k creator (cdet_of creator s) ->
@@ -201,6 +203,9 @@ Proof.
         + intros x n1 Hx. rewrite Hf4, Hf3. apply key_eqb_neq in Hx. rewrite Hx.
           destruct (findn x (nodes s)) as [m|]; [|discriminate]. cbn. intros H. inversion H; subst n1.
           exists m. split; [reflexivity|]. destruct (is_prod_of k m); cbn; auto.
+        + intros x n0 Hx Hx0 Hd0. rewrite Hf4, Hf3. pose proof Hx as Hx'. apply key_eqb_neq in Hx'. rewrite Hx', Hx0. cbn.
+          destruct (is_prod_of k n0) eqn:Ep; [|reflexivity].
+          pose proof (prod_detached (nodes s) k n x n0 HW Hf Hdn Hx0 Ep). congruence.
       - apply NoDup_map_filter. rewrite Hk3. apply nw_nodup. exact HW.
       - intros p Hp. apply in_map_iff in Hp. destruct Hp as [m [Hm1 Hm2]]. apply filter_In in Hm2.
         destruct Hm2 as [Hm2 Hm3]. exists m. subst p.
@@ -236,6 +241,7 @@ Proof.
     + intros x n1 Hx. rewrite findn_app. destruct (findn x (nodes s)) as [m|].
       * intros H. inversion H; subst. exists n1. auto.
       * unfold findn. cbn. apply key_eqb_neq in Hx. rewrite key_eqb_sym, Hx. discriminate.
+    + intros x n0 Hx Hx0 _. rewrite findn_app, Hx0. reflexivity.
 Qed.
 
 (* ------------------------------------------------------------------------------------------ *)
@@ -515,11 +521,45 @@ Qed.
 (* ------------------------------------------------------------------------------------------ *)
 (* Trellis.create                                                                              *)
 (* ------------------------------------------------------------------------------------------ *)
+(* StaticTree has no satellite row *)
+Lemma tree_row_inv p creator cdet s s1 :
+  Inv hh s -> NPost (KTree, p) creator cdet s s1 -> Inv hh s1.
+Proof.
+  intros HI HP. destruct (NPost_deps _ _ _ _ _ HI HP) as [HD HA].
+  pose proof (inv_rw _ HI) as [R1 R2 R3 R4 R5 R6 R7].
+  constructor.
+  - apply (np_nw _ _ _ _ _ HP).
+  - rewrite (np_files _ _ _ _ _ HP), (np_steps _ _ _ _ _ HP), (np_envs _ _ _ _ _ HP). constructor; try assumption.
+    + intros x. rewrite (np_kl _ _ _ _ _ HP), R3. split; [auto | intros [H|H]; [exact H | discriminate]].
+    + intros x. rewrite (np_kl _ _ _ _ _ HP), R4. split; [auto | intros [H|H]; [exact H | discriminate]].
+    + apply (np_hnd _ _ _ _ _ HP).
+    + eapply incl_tran; [apply (np_hincl _ _ _ _ _ HP) | exact R6].
+  - exact HD.
+  - exact HA.
+  - rewrite (np_files _ _ _ _ _ HP). apply (NPost_ud _ _ _ _ _ _ HI HP); [apply incl_refl | discriminate].
+  - rewrite (np_files _ _ _ _ _ HP). apply (inv_fh _ HI).
+  - rewrite (np_steps _ _ _ _ _ HP). apply (inv_sw _ HI).
+  - rewrite (np_files _ _ _ _ _ HP). apply (NPost_oe _ _ _ _ _ HI HP).
+Qed.
+
+Lemma NPost_GG k creator cdet s s1 :
+  fst k <> KFile -> NPost k creator cdet s s1 -> GG s s1.
+Proof.
+  intros Hk HP. constructor.
+  - intros x. unfold sstate_of, find_step. rewrite (np_steps _ _ _ _ _ HP). auto.
+  - intros x. unfold sstate_of, find_step. rewrite (np_steps _ _ _ _ _ HP). auto.
+  - intros x. apply (NPost_hash _ _ _ _ _ _ HP).
+  - intros x f' [A [B C]].
+    assert (Hne : (KFile, f') <> k). { intros E. apply Hk. rewrite <- E. reflexivity. }
+    destruct (NPost_V _ _ _ _ _ _ _ HP Hne A B) as [A0 B0]. split; [exact A0|]. split; [exact B0|].
+    unfold po, fstate_of, find_file in *. rewrite (np_files _ _ _ _ _ HP) in C. exact C.
+Qed.
+
 Definition arg_ok (k : key) (creator : option key) (arg : init_arg) : Prop :=
   match arg with
   | InitFile f => fst k = KFile /\ (f = FUndeclared -> creator = None)
   | InitStep _ => fst k = KStep
-  | InitTree => False
+  | InitTree => fst k = KTree
   end.
 
 Lemma NF_nodes_eq K s s1 s' : NF K s s1 -> nodes s' = nodes s1 -> NF K s s'.
@@ -546,7 +586,7 @@ Proof.
   2:{ destruct strict; [|exact I]. cbn. destruct (Hst eq_refl) as [H _]. discriminate. }
   cbn [bind]. apply wpg_bind.
   assert (Hkind : fst k <> KRoot).
-  { destruct arg; cbn in Harg; [destruct Harg as [H _]; rewrite H; discriminate | rewrite Harg; discriminate | contradiction]. }
+  { destruct arg; cbn in Harg; [destruct Harg as [H _]; rewrite H; discriminate | rewrite Harg; discriminate | rewrite Harg; discriminate]. }
   eapply wpg_weaken.
   { apply create_nodes_spec; [exact HI | exact Hkind | apply creator_ok_new_node; exact Hco |].
     intros Hs. apply (Hst Hs). }
@@ -556,7 +596,11 @@ Proof.
   { rewrite is_detached_findn, (np_k _ _ _ _ _ HP). reflexivity. }
   assert (Hcre1 : creator_of k s1 = creator).
   { unfold creator_of, find_node. fold (findn k (nodes s1)). rewrite (np_k _ _ _ _ _ HP). reflexivity. }
-  destruct arg as [f|nd|]; cbn in Harg; [| |contradiction].
+  destruct arg as [f|nd|]; cbn in Harg.
+  3:{ destruct k as [kk p]. cbn in Harg. subst kk. cbn [wpg].
+      split; [apply (tree_row_inv p creator (cdet_of creator s) s s1 HI HP)|].
+      split; [apply (NPost_NF _ _ _ _ _ HP)|]. split; [exact HKin|]. split; [exact Hdet1|]. split; [exact Hcre1|].
+      split; [intros f0 Hf0; discriminate|]. split; [intros _; apply (NPost_GG (KTree, p) creator (cdet_of creator s) s s1); [cbn; discriminate | exact HP] | intros nd0 H0; discriminate]. }
   - destruct k as [kk l]. destruct Harg as [Hk Hu]. cbn in Hk. subst kk. cbn [snd].
     eapply wpg_weaken.
     { apply (file_row_spec strict l creator (cdet_of creator s) f s s1 HI HP).
